@@ -401,9 +401,39 @@ func runC15(c *engine.Ctx) {
 					csites = append(csites, closeSite{g, cl})
 				}
 			}
+			root := f
 			for _, cs := range csites {
 				cl, f := cs.cl, cs.host
 				n++
+				// a step split out of the function closes the proxy and leaves the notification to its caller: judge the
+				// caller from the call of that step
+				if f != root && f.Parent() == nil && len(engine.CallsToDeep(f, plugClose)) == 0 {
+					step := f
+					c.AllPaths(sym, engine.PathCheck{Fn: root, Sink: engine.IsReturn,
+						Event: func(in ssa.Instruction) string {
+							if in == cl.(ssa.Instruction) {
+								return "closed" // reached inside the step when the path search explores it inline
+							}
+							call, ok := in.(ssa.CallInstruction)
+							if !ok {
+								return ""
+							}
+							if engine.IsCallTo(in, plugClose) {
+								return "notify"
+							}
+							if cf := engine.CalleeFn(call); cf != nil && cf.Blocks != nil && cf.Pkg == root.Pkg && cf != step && len(engine.CallsToDeep(cf, plugClose)) > 0 {
+								return "notify"
+							}
+							return ""
+						},
+						Pred: func(st *engine.PathState) string {
+							if st.HasEvent("closed") && !st.HasEvent("notify") {
+								return "a proxy is closed (in " + step.Name() + ") and no CloseProxy notification is sent on this path"
+							}
+							return ""
+						}}, "proxy Close is always followed by the CloseProxy notification")
+					continue
+				}
 				// the notification may be issued from a goroutine closure started on the path
 				c.AllPaths(sym, engine.PathCheck{Fn: f, From: cl, KeepLoopFacts: true,
 					Sink: func(in ssa.Instruction) bool { return engine.IsReturn(in) || in == cl },
